@@ -150,21 +150,7 @@ def run(rep: Report, ctx: Any) -> str:
     rep.check(isinstance(branch.test, ast.Call) and bool(branch.body) and bool(branch.orelse), "R15.3", "_process_properties::reference-and-inline",
               "allOf members of one kind are ignored", where(pp, branch))
     # ---- R15.5 -----------------------------------------------------------------------------------------------------------------
-    muts = []
-    loop_vars = {norm(n.target) for n in ast.walk(pp.node) if isinstance(n, ast.For)}
-    for n in ast.walk(pp.node):
-        if isinstance(n, ast.Call) and call_name(n) in ("object.__setattr__", "setattr") and n.args and norm(n.args[0]) in loop_vars:
-            muts.append(n)
-        if isinstance(n, (ast.Assign, ast.AugAssign)):
-            tg = n.targets if isinstance(n, ast.Assign) else [n.target]
-            if any(isinstance(t, ast.Attribute) and norm(t.value) in loop_vars for t in tg):
-                muts.append(n)
-        if isinstance(n, ast.Call) and isinstance(n.func, ast.Attribute) and n.func.attr.startswith("set_") and norm(n.func.value) in loop_vars:
-            muts.append(n)
-    rep.check(not muts, "R15.5", "_process_properties::parent-properties-not-mutated",
-              f"a property object shared with the referenced parent model is mutated while composing the child ({[norm(m)[:60] for m in muts]}): "
-              "the change leaks into the parent class", where(pp, muts[0]) if muts else where(pp, branch),
-              lhs=[norm(m)[:60] for m in muts], rhs="no mutation of inherited property objects")
+    check_no_parent_mutation(rep, ctx, "R15.5")
     # ---- R15.4 -------------------------------------------------------------------------------------------------------------------
     pm = ix.func("properties._process_models")
     t3 = norm(pm.node)
@@ -183,6 +169,30 @@ def run(rep: Report, ctx: Any) -> str:
     rep.check(bool(unproc), "R15.4", "_process_properties::unprocessed-parent-error", "a not-yet-processed parent is not reported (so never retried)",
               where(pp, pp.node))
     return LEVEL
+
+
+def check_no_parent_mutation(rep: Report, ctx: Any, rid: str) -> None:
+    """property objects inherited from a referenced parent are shared: never mutated while composing a child (C15 / C02)"""
+    ix = ctx.py
+    pp = ix.func("model_property._process_properties")
+    branch = next((s_ for lp in ast.walk(pp.node) if isinstance(lp, ast.For) and "data.allOf" in norm(lp.iter) for s_ in lp.body
+                   if isinstance(s_, ast.If) and "isinstance(sub_prop, oai.Reference)" in norm(s_.test)), None)
+    rep.require(branch is not None, "allOf reference branch")
+    muts = []
+    loop_vars = {norm(n.target) for n in ast.walk(pp.node) if isinstance(n, ast.For)}
+    for n in ast.walk(pp.node):
+        if isinstance(n, ast.Call) and call_name(n) in ("object.__setattr__", "setattr") and n.args and norm(n.args[0]) in loop_vars:
+            muts.append(n)
+        if isinstance(n, (ast.Assign, ast.AugAssign)):
+            tg = n.targets if isinstance(n, ast.Assign) else [n.target]
+            if any(isinstance(t, ast.Attribute) and norm(t.value) in loop_vars for t in tg):
+                muts.append(n)
+        if isinstance(n, ast.Call) and isinstance(n.func, ast.Attribute) and n.func.attr.startswith("set_") and norm(n.func.value) in loop_vars:
+            muts.append(n)
+    rep.check(not muts, rid, "_process_properties::parent-properties-not-mutated",
+              f"a property object shared with the referenced parent model is mutated while composing the child ({[norm(m)[:60] for m in muts]}): "
+              "the change leaks into the parent class", where(pp, muts[0]) if muts else where(pp, branch),
+              lhs=[norm(m)[:60] for m in muts], rhs="no mutation of inherited property objects")
 
 
 def _more_specific(t1: str, t2: str) -> bool:
